@@ -10,7 +10,9 @@
   visible (`…_full`), the proved theorem is `…_partial` under explicit decidable hypotheses, and the
   counterexample is a kernel-checked evaluation of a concrete witness (Cog/Builder/Witness.lean) that the
   check also replays on the real code:
-    * `Option.DeepCopy` drops `Default`            ⇒ duplicate (option and builder) is not identical;
+    * (`Option.DeepCopy` dropped `Default` until /repo 71b1811: duplicate is now identical —
+      `C17_option_duplicate_identical`, `C17_builder_duplicate_identical`; the former behaviour stays a
+      checked statement about `deepCopyPreFix`.)
     * `applyOptionRules` dismisses option-less builders ⇒ the frame fails even with no rule at all;
     * `RenameArguments` forgets constraint / index arguments ⇒ well-typedness is not preserved;
     * `ArrayToAppend`/`MapToIndex`/`RenameArguments` store through shared pointers ⇒ an option rule
@@ -90,71 +92,31 @@ theorem C17_builder_duplicate_shape (pkg : String) (ss : Schemas) (sel : BSel) (
     injection h with h
     exact ⟨selected, (filterO_spec _ bs selected hf).1, h.symm⟩
 
-/-- the property's reading: the copy is identical to the original but for its name
-    (pointer identities aside) -/
-def C17_builder_duplicate_identical_full : Prop :=
-  ∀ (pkg : String) (ss : Schemas) (sel : BSel) (as_ : String) (bs bs' : Builders),
-    applyBRule pkg ss bs (.duplicate sel as_ []) = .ok bs' →
-    ∀ b ∈ bs, sel.matches pkg ss b = .ok true →
-      ∃ c ∈ bs', c.content = { b.content with name := as_ }
-
-/-- what holds: identical but for the name and **the options' defaults** -/
-theorem C17_builder_duplicate_identical_partial (pkg : String) (ss : Schemas) (sel : BSel) (as_ : String)
+/-- **`duplicate` yields an identical copy under the new name** (defaults and factories included;
+    pointer identities aside): holds since /repo ea8a40d (factories, `For`) and 71b1811 (option defaults) -/
+theorem C17_builder_duplicate_identical (pkg : String) (ss : Schemas) (sel : BSel) (as_ : String)
     (bs bs' : Builders) (h : applyBRule pkg ss bs (.duplicate sel as_ []) = .ok bs') :
     ∀ b ∈ bs, sel.matches pkg ss b = .ok true →
-      ∃ c ∈ bs', c.content = { b.content with name := as_, options := b.options.map fun o => { o.content with dflt := none } } ∧
-        ((∀ o ∈ b.options, o.dflt = none) → c.content = { b.content with name := as_ }) := by
+      ∃ c ∈ bs', c.content = { b.content with name := as_ } := by
   intro b hb hsel
   obtain ⟨selected, hs, hbs'⟩ := C17_builder_duplicate_shape pkg ss sel as_ [] bs bs' h
   have hmem : b ∈ selected := by
     rw [hs]; exact List.mem_filter.2 ⟨hb, by simp [hsel]⟩
-  refine ⟨{ b.deepCopy with name := as_ }, ?_, ?_, ?_⟩
+  refine ⟨{ b.deepCopy with name := as_ }, ?_, ?_⟩
   · rw [hbs']
     apply List.mem_append_right
     exact List.mem_map.2 ⟨b, hmem, by simp⟩
   · have := Builder.deepCopy_content b
-    simp only [Builder.content] at this ⊢
-    simp only [Builder.deepCopy] at this ⊢
-    simpa using this
-  · intro hnd
-    have := Builder.deepCopy_content_of_no_defaults b hnd
     simp only [Builder.content, Builder.deepCopy] at this ⊢
     simpa using this
 
-example : ∃ b : Builder, ∀ o ∈ b.options, o.dflt = none := ⟨default, by simp [default, instInhabitedBuilder.default]⟩
-
-theorem C17_builder_duplicate_identical_counterexample : ¬ C17_builder_duplicate_identical_full := by
-  intro hfull
-  -- witness: p.S has option `a` with default `true`; no builder named "Copy" in the result has an
-  -- option list with the same defaults
-  let ss := wDupBuilder.ss
-  let bs₀ := getOk (fromAST ss)
-  let rule : BRule := .duplicate (.byObject "S") "Copy" []
-  let bs' := getOk (applyBRule "p" ss bs₀ rule)
-  have h0 : fromAST ss = .ok bs₀ := eq_ok_getOk _ (by decide)
-  have h1 : applyBRule "p" ss bs₀ rule = .ok bs' := eq_ok_getOk _ (by decide)
-  have hchk : (bs₀.any fun b =>
-      (match (BSel.byObject "S").matches "p" ss b with | .ok true => true | _ => false) &&
-      bs'.all fun c => c.name != "Copy" || (c.options.map fun o => o.dflt.isSome) != (b.options.map fun o => o.dflt.isSome)) = true := by
-    decide
-  obtain ⟨b, hb, hcond⟩ := List.any_eq_true.1 hchk
-  simp only [Bool.and_eq_true] at hcond
-  obtain ⟨hsel, hall⟩ := hcond
-  have hsel' : (BSel.byObject "S").matches "p" ss b = .ok true := by
-    cases hm : (BSel.byObject "S").matches "p" ss b with
-    | ok v => cases v <;> simp_all
-    | err e => simp [hm] at hsel
-    | panic s => simp [hm] at hsel
-  obtain ⟨c, hc, hcont⟩ := hfull "p" ss (.byObject "S") "Copy" bs₀ bs' h1 b hb hsel'
-  have hname : c.name = "Copy" := by
-    have := congrArg Builder.name hcont
-    simpa [Builder.content] using this
-  have hd : (c.options.map fun o => o.dflt.isSome) = (b.options.map fun o => o.dflt.isSome) := by
-    have := congrArg (fun x : Builder => x.options.map fun o => o.dflt.isSome) hcont
-    simpa [Builder.content, Opt.content, Opt.mapCells, List.map_map, Function.comp_def] using this
-  have := (List.all_eq_true.1 hall) c hc
-  simp [hname, hd] at this
-
+/-- before /repo 71b1811 the copy's options had lost their defaults: on the witness `wDupBuilder`
+    (`p.S` has option `a` with default `true`) the pre-fix copy differs from the original in exactly that -/
+theorem C17_builder_duplicate_dropped_defaults_before_fix :
+    ((getOk (fromAST wDupBuilder.ss)).all fun b =>
+      (b.deepCopyPreFix.options.map fun o => o.dflt.isSome) != (b.options.map fun o => o.dflt.isSome) &&
+      (b.deepCopy.options.map fun o => o.dflt.isSome) == (b.options.map fun o => o.dflt.isSome)) = true ∧
+    (getOk (fromAST wDupBuilder.ss)).length = 1 := by decide
 
 /-- frame of `merge_into`: same number of builders, same order; a builder the destination selector
     rejects is unchanged (in particular the *source* builder stays — it is merged, not moved) -/
@@ -214,41 +176,24 @@ theorem C17_option_add_comments_only_comments (ss : Schemas) (b : Builder) (o : 
 theorem C17_option_duplicate_shape (ss : Schemas) (b : Builder) (o : Opt) (sel : OSel) (as_ : String) :
     applyAction ss b o (.duplicate sel as_) = .ok { opts := [o, { o.deepCopy with name := as_ }], writes := [] } := rfl
 
-/-- the property's reading: the second option is identical to the first but for its name -/
-def C17_option_duplicate_identical_full : Prop :=
-  ∀ (ss : Schemas) (b : Builder) (o : Opt) (sel : OSel) (as_ : String) (out : ActOut),
-    applyAction ss b o (.duplicate sel as_) = .ok out →
-    ∃ c, out.opts = [o, c] ∧ c.content = { o.content with name := as_ }
-
-/-- what holds: identical but for the name and **the default** -/
-theorem C17_option_duplicate_identical_partial (ss : Schemas) (b : Builder) (o : Opt) (sel : OSel) (as_ : String)
+/-- **`duplicate` yields an identical copy under the new name** (default included; pointer
+    identities aside): holds since /repo 71b1811 -/
+theorem C17_option_duplicate_identical (ss : Schemas) (b : Builder) (o : Opt) (sel : OSel) (as_ : String)
     (out : ActOut) (h : applyAction ss b o (.duplicate sel as_) = .ok out) :
-    ∃ c, out.opts = [o, c] ∧ c.content = { o.content with name := as_, dflt := none } ∧
-      (o.dflt = none → c.content = { o.content with name := as_ }) := by
+    ∃ c, out.opts = [o, c] ∧ c.content = { o.content with name := as_ } := by
   rw [C17_option_duplicate_shape] at h
   injection h with h
   subst h
-  refine ⟨_, rfl, ?_, ?_⟩
-  · have := Opt.deepCopy_content o
-    simp only [Opt.content, Opt.mapCells, Opt.deepCopy] at this ⊢
-    simpa using this
-  · intro hd
-    have := Opt.deepCopy_content_of_no_default o hd
-    simp only [Opt.content, Opt.mapCells, Opt.deepCopy] at this ⊢
-    simpa using this
+  refine ⟨_, rfl, ?_⟩
+  have := Opt.deepCopy_content o
+  simp only [Opt.content, Opt.mapCells, Opt.deepCopy] at this ⊢
+  simpa using this
 
-example : ∃ o : Opt, o.dflt = none := ⟨{ name := "x" }, rfl⟩
-
-theorem C17_option_duplicate_identical_counterexample : ¬ C17_option_duplicate_identical_full := by
-  intro hfull
-  let o : Opt := { name := "a", dflt := some [.bool true] }
-  obtain ⟨c, hc, hcont⟩ := hfull [] default o .empty "dup" _ (C17_option_duplicate_shape [] default o .empty "dup")
-  have h2 : c = { o.deepCopy with name := "dup" } := by
-    have := congrArg (fun l : List Opt => l[1]?) hc
-    simpa using this.symm
-  have := congrArg Opt.dflt hcont
-  rw [h2] at this
-  simp [Opt.content, Opt.mapCells, Opt.deepCopy, o] at this
+/-- before /repo 71b1811 the copy had no default, whatever the original's -/
+theorem C17_option_duplicate_dropped_default_before_fix (o : Opt) :
+    (Opt.deepCopyPreFix o).content = { o.content with dflt := none } ∧
+    ((Opt.deepCopyPreFix { name := "a", dflt := some [.bool true] }).dflt.isSome = false) :=
+  ⟨Opt.deepCopyPreFix_content o, rfl⟩
 
 /-- `array_to_append`: one option comes back, under the same name, and its assignments still target
     exactly the paths the original's assignments targeted -/
@@ -586,6 +531,12 @@ theorem C17_seq_counterexample_only_first_assignment :
 theorem C17_seq_counterexample_promote_first_argument_only :
     (WTs wMapIndexPromote.ss (getOk (fromAST wMapIndexPromote.ss)) = true) ∧
     isOk wMapIndexPromote.run = true ∧ WTs wMapIndexPromote.ss (getOk wMapIndexPromote.run) = false := by decide
+
+/-- `map_to_index` after `array_to_append` on a list of maps: the index item is appended to a path
+    that ends in the array, with the inner map's value type -/
+theorem C17_seq_counterexample_map_to_index_after_append :
+    (WTs wAppendThenMapToIndex.ss (getOk (fromAST wAppendThenMapToIndex.ss)) = true) ∧
+    isOk wAppendThenMapToIndex.run = true ∧ WTs wAppendThenMapToIndex.ss (getOk wAppendThenMapToIndex.run) = false := by decide
 
 /-! ## frame at the level of the whole rewriter -/
 
